@@ -1339,3 +1339,145 @@ Proof.
     + intros w Hw. rewrite <- Eg in Hw. destruct (m_v2 _ _ _ M c i w Hc Hw) as (jw & Pw & Qw).
       eapply cmp_dom_trans; [exact Qw|]. rewrite <- Er. apply FD; [apply Hin|]; exact Pw.
 Qed.
+
+(* ------------------------------------------------------------ destructor vs constructor of another instance *)
+Lemma g_dtor_order : dtor_zero_first = true.
+Proof. reflexivity. Qed.
+
+Fixpoint csum (f : nat -> Z) (n : nat) : Z := match n with O => 0%Z | S n' => (csum f n' + f n')%Z end.
+
+Lemma csum_ext : forall f g n, (forall k, (k < n)%nat -> f k = g k) -> csum f n = csum g n.
+Proof. intros f g n. induction n as [|n IH]; intros H; cbn; [reflexivity|]. rewrite IH by (intros; apply H; lia). rewrite H by lia. reflexivity. Qed.
+Lemma csum_zero : forall f n, (forall k, (k < n)%nat -> f k = 0%Z) -> csum f n = 0%Z.
+Proof. intros f n. induction n as [|n IH]; intros H; cbn; [reflexivity|]. rewrite IH by (intros; apply H; lia). rewrite H by lia. reflexivity. Qed.
+Lemma csum_upd2 : forall m j k v n, (k < n)%nat -> csum (upd2 m j k v j) n = (csum (m j) n + v - m j k)%Z.
+Proof.
+  intros m j k v n. induction n as [|n IH]; intros Hk; [lia|]. cbn [csum].
+  destruct (Nat.eq_dec k n) as [->|Hne].
+  - rewrite (csum_ext _ (m j)) by (intros i Hi; unfold upd2; rewrite Nat.eqb_refl; destruct (Nat.eqb_spec i n); [lia|reflexivity]).
+    unfold upd2. rewrite !Nat.eqb_refl. cbn. lia.
+  - rewrite IH by lia. unfold upd2. rewrite Nat.eqb_refl. destruct (Nat.eqb_spec n k); [lia|]. cbn. lia.
+Qed.
+Lemma upd2_other : forall m j k v j' k', j' <> j -> upd2 m j k v j' k' = m j' k'.
+Proof. intros. unfold upd2. destruct (Nat.eqb_spec j' j); [contradiction|reflexivity]. Qed.
+
+Record dinv (n xid kb : nat) (x : dst) : Prop := {
+  di_lt : forall j, In j (fre (d_ids x)) -> (j < nxt (d_ids x))%nat;
+  di_nd : NoDup (fre (d_ids x));
+  di_x : (xid < nxt (d_ids x))%nat;
+  di_rel : In xid (fre (d_ids x)) -> d_rel x = true;
+  di_done : d_rel x = true -> d_pos x = n;
+  di_pos : (d_pos x <= n)%nat;
+  di_clean : forall j, (In j (fre (d_ids x)) \/ nxt (d_ids x) <= j)%nat -> forall k, dm x j k = 0%Z;
+  di_lines : forall j k, (n <= k)%nat -> dm x j k = 0%Z;
+  di_swept : d_rel x = false -> forall k, (k < d_pos x)%nat -> dm x xid k = 0%Z;
+  di_y : forall y, d_y x = Some y -> ~ In y (fre (d_ids x)) /\ (y < nxt (d_ids x))%nat /\
+                                     (y = xid -> d_rel x = true) /\ csum (dm x y) n = d_added x;
+  di_none : d_y x = None -> d_added x = 0%Z
+}.
+
+Lemma dstep_inv : forall n xid kb x t x', (kb < n)%nat -> dinv n xid kb x -> dstep n xid kb x t = Some x' -> dinv n xid kb x'.
+Proof.
+  intros n xid kb x t x' Hkb I. unfold dstep. rewrite g_dtor_order.
+  destruct t as [|[|t]]; [| |discriminate].
+  - (* the destructor *)
+    destruct (Nat.ltb_spec (d_pos x) n) as [Hp|Hp].
+    + unfold d_sweep. destruct (Nat.ltb_spec (d_pos x) n); [|lia]. intros Hst; injection Hst as <-.
+      assert (Hr : d_rel x = false) by (destruct (d_rel x) eqn:E; [pose proof (di_done _ _ _ _ I E); lia|reflexivity]).
+      assert (Hxf : ~ In xid (fre (d_ids x))) by (intros F; pose proof (di_rel _ _ _ _ I F); congruence).
+      unfold adder_reset_value.
+      constructor; cbn.
+      * exact (di_lt _ _ _ _ I).
+      * exact (di_nd _ _ _ _ I).
+      * exact (di_x _ _ _ _ I).
+      * exact (di_rel _ _ _ _ I).
+      * intros E; congruence.
+      * lia.
+      * intros j Hj k. rewrite upd2_other; [apply (di_clean _ _ _ _ I); exact Hj|].
+        intros ->. destruct Hj as [F|F]; [contradiction|pose proof (di_x _ _ _ _ I); lia].
+      * intros j k Hk. unfold upd2. destruct (Nat.eqb_spec j xid); destruct (Nat.eqb_spec k (d_pos x)); cbn; try reflexivity;
+          apply (di_lines _ _ _ _ I); exact Hk.
+      * intros _ k Hk. unfold upd2. rewrite Nat.eqb_refl. destruct (Nat.eqb_spec k (d_pos x)); cbn; [reflexivity|].
+        apply (di_swept _ _ _ _ I Hr). lia.
+      * intros y Ey. destruct (di_y _ _ _ _ I y Ey) as (A & B & C & D). repeat split; auto.
+        assert (y <> xid) by (intros E; apply C in E; congruence).
+        rewrite <- D. apply csum_ext. intros k _. apply upd2_other. assumption.
+      * exact (di_none _ _ _ _ I).
+    + unfold d_release. destruct (d_rel x) eqn:Hr; [discriminate|]. intros Hst; injection Hst as <-.
+      assert (Hpos : d_pos x = n) by (pose proof (di_pos _ _ _ _ I); lia).
+      assert (Hxf : ~ In xid (fre (d_ids x))) by (intros F; pose proof (di_rel _ _ _ _ I F); congruence).
+      constructor; cbn.
+      * intros j [<-|Hj]; [exact (di_x _ _ _ _ I)|apply (di_lt _ _ _ _ I), Hj].
+      * constructor; [exact Hxf|exact (di_nd _ _ _ _ I)].
+      * exact (di_x _ _ _ _ I).
+      * reflexivity.
+      * intros _. exact Hpos.
+      * exact (di_pos _ _ _ _ I).
+      * intros j [[<-|Hj]|Hj] k; [|apply (di_clean _ _ _ _ I); left; exact Hj|apply (di_clean _ _ _ _ I); right; exact Hj].
+        destruct (Nat.lt_ge_cases k n) as [L|L]; [apply (di_swept _ _ _ _ I Hr); lia|apply (di_lines _ _ _ _ I); exact L].
+      * exact (di_lines _ _ _ _ I).
+      * discriminate.
+      * intros y Ey. destruct (di_y _ _ _ _ I y Ey) as (A & B & C & D). repeat split; auto.
+        intros [F|F]; [|contradiction]. subst y. pose proof (C eq_refl). congruence.
+      * exact (di_none _ _ _ _ I).
+  - (* the other thread *)
+    destruct (d_y x) as [y|] eqn:Ey.
+    + destruct (d_todo x) as [|v r]; [discriminate|]. intros Hst; injection Hst as <-.
+      destruct (di_y _ _ _ _ I y Ey) as (A & B & C & D).
+      unfold adder_step.
+      constructor; cbn.
+      * exact (di_lt _ _ _ _ I).
+      * exact (di_nd _ _ _ _ I).
+      * exact (di_x _ _ _ _ I).
+      * exact (di_rel _ _ _ _ I).
+      * exact (di_done _ _ _ _ I).
+      * exact (di_pos _ _ _ _ I).
+      * intros j Hj k. rewrite upd2_other; [apply (di_clean _ _ _ _ I); exact Hj|].
+        intros ->. destruct Hj as [F|F]; [contradiction|lia].
+      * intros j k Hk. unfold upd2. destruct (Nat.eqb_spec j y); destruct (Nat.eqb_spec k kb); cbn; try (apply (di_lines _ _ _ _ I); exact Hk). lia.
+      * intros Hr k Hk. rewrite upd2_other; [apply (di_swept _ _ _ _ I Hr); exact Hk|]. intros E. symmetry in E. apply C in E. congruence.
+      * intros y' E; inversion E; subst y'. repeat split; auto. rewrite csum_upd2 by exact Hkb. lia.
+      * discriminate.
+    + destruct (id_alloc (d_ids x)) as [y a] eqn:Ea. intros Hst; injection Hst as <-.
+      assert (HK1 : (1 <= cK cfg_adder)%nat /\ (1 <= cB cfg_adder)%nat) by apply cfgs_ok.
+      destruct (alloc_spec cfg_adder (proj1 HK1) (proj2 HK1) _ _ _ (di_lt _ _ _ _ I) (di_nd _ _ _ _ I) Ea) as (A1 & A2 & A3 & A4 & A5 & A6 & A7).
+      constructor; cbn.
+      * intros j Hj. apply A5, (di_lt _ _ _ _ I) in Hj. lia.
+      * exact A4.
+      * pose proof (di_x _ _ _ _ I). lia.
+      * intros F. apply (di_rel _ _ _ _ I), A5, F.
+      * exact (di_done _ _ _ _ I).
+      * exact (di_pos _ _ _ _ I).
+      * intros j Hj. apply (di_clean _ _ _ _ I). destruct Hj as [Hj|Hj]; [left; apply A5, Hj|right; lia].
+      * exact (di_lines _ _ _ _ I).
+      * exact (di_swept _ _ _ _ I).
+      * intros y' E; inversion E; subst y'. repeat split; auto.
+        -- intros ->. apply (di_rel _ _ _ _ I). destruct A7 as [[F _]|[F _]]; [exact F|pose proof (di_x _ _ _ _ I); lia].
+        -- assert (Hfresh : (In y (fre (d_ids x)) \/ nxt (d_ids x) <= y)%nat) by (destruct A7 as [[F _]|[F _]]; [left; exact F|right; lia]).
+           rewrite (di_none _ _ _ _ I Ey). apply csum_zero. intros k _. apply (di_clean _ _ _ _ I _ Hfresh).
+      * discriminate.
+Qed.
+
+Definition dstart_ok (n xid : nat) (m0 : nat -> nat -> Z) (a : ids) : Prop :=
+  (forall j, In j (fre a) -> (j < nxt a)%nat) /\ NoDup (fre a) /\ (xid < nxt a)%nat /\ ~ In xid (fre a) /\
+  (forall j, (In j (fre a) \/ nxt a <= j)%nat -> forall k, m0 j k = 0%Z) /\ (forall j k, (n <= k)%nat -> m0 j k = 0%Z).
+
+Lemma dinv_init : forall n xid kb m0 a vs, dstart_ok n xid m0 a -> dinv n xid kb (dinit m0 a vs).
+Proof.
+  intros n xid kb m0 a vs (A & B & C & D & E & F). constructor; cbn; auto; try lia; try discriminate;
+    try (intros G; contradiction); try (intros _ k Hk; lia).
+Qed.
+
+(* every interleaving of the destructor of instance xid (n-line zeroing sweep, then release of the id) with another
+   thread that constructs a new instance and counts into it: at every moment the new instance holds exactly what its
+   owner counted - whether or not it recycled xid - for every dirty content of xid's column, every free list *)
+Theorem ct_recycle_exact : forall n xid kb m0 a vs x, (kb < n)%nat -> dstart_ok n xid m0 a ->
+  reachable dst (dstep n xid kb) (dinit m0 a vs) x ->
+  forall y, d_y x = Some y -> csum (dm x y) n = d_added x.
+Proof.
+  intros n xid kb m0 a vs x Hkb Hok Hr y Ey.
+  assert (I : dinv n xid kb x).
+  { eapply (inv_reachable dst (dstep n xid kb) (dinv n xid kb)); [apply dinv_init; exact Hok| |exact Hr].
+    intros s t s' Is E. eapply dstep_inv; eauto. }
+  apply (di_y _ _ _ _ I y Ey).
+Qed.
